@@ -91,6 +91,8 @@ pub struct Swarm {
     pub short_permille: u64,
     pub special_off_permille: u64,
     pub nan_custom_permille: u64,
+    /// in this run the allocator refuses while a worker is inside a library parse call
+    pub alloc_faults: bool,
     pub weights: [u64; 7],
     pub small: bool,
 }
@@ -253,6 +255,7 @@ pub fn swarm(seed: u64, focus: &str, flags: &GenFlags) -> Swarm {
         } else {
             0
         },
+        alloc_faults: faults && r.chance(1, 3),
         nan_custom_permille: match focus {
             "C15" | "C17" => 60,
             _ => 8,
@@ -594,11 +597,23 @@ fn gen_tie(r: &mut Rng, ty: FloatTy, sw: &Swarm) -> (Vec<u8>, u64) {
             // The dropped digits go into the exponent, which is steered to one of the run's hot magnitudes
             // when that is reachable, so that different calls share exponents.
             let n = d.len();
-            let mut keep = 20 + r.below((n - 21) as u64) as usize;
+            // usually at least 20 digits are kept (more than any fast path takes); sometimes only 9-19, where a
+            // parser may be tempted to go through a wider float type and round twice
+            // (the kept digits must still pin the value to within half a unit in the last place of the midpoint:
+            // 9 digits suffice for f32, 18 for f64)
+            let mut keep = if r.chance(1, 5) {
+                let lo = match ty {
+                    FloatTy::F32 => 9,
+                    FloatTy::F64 => 18,
+                };
+                (lo + r.below((20 - lo) as u64) as usize).min(n - 1)
+            } else {
+                20 + r.below((n - 21) as u64) as usize
+            };
             if let Some(t) = target {
                 // exponent after truncation = k + (n - keep)
                 let want_keep = n as i64 - (t - k as i64);
-                if want_keep >= 20 && want_keep < n as i64 && r.chance(3, 4) {
+                if keep >= 20 && want_keep >= 20 && want_keep < n as i64 && r.chance(3, 4) {
                     keep = want_keep as usize;
                 }
             }
